@@ -2,6 +2,7 @@ package rules
 
 import (
 	"fmt"
+	"go/token"
 	"sort"
 	"strings"
 
@@ -15,6 +16,56 @@ func init() { Props["C13"] = C13 }
 const acctPrefix = "internal/ledger.(*SimpleAccount)."
 
 // lookupCalls finds, in fn, the read of each storage layer used by GetState-like functions.
+// layerList: the Load call consults, one after the other, the sync.Map fields of a literal list it ranges over
+// (`for _, m := range []*sync.Map{&o.dirtyState, &o.originState} { if v, ok := m.Load(k); ok { return .. } }`);
+// returns the field names in list order, nil for an ordinary Load.
+func layerList(call ssa.CallInstruction) []string {
+	rv := core.Receiver(call)
+	u, ok := rv.(*ssa.UnOp)
+	if !ok || u.Op != token.MUL {
+		return nil
+	}
+	ia, ok := u.X.(*ssa.IndexAddr)
+	if !ok {
+		return nil
+	}
+	sl, ok := ia.X.(*ssa.Slice)
+	if !ok {
+		return nil
+	}
+	al, ok := sl.X.(*ssa.Alloc)
+	if !ok || al.Referrers() == nil {
+		return nil
+	}
+	byIdx := map[int64]string{}
+	for _, ref := range *al.Referrers() {
+		ea, ok := ref.(*ssa.IndexAddr)
+		if !ok || ea.Referrers() == nil {
+			continue
+		}
+		idx, ok := core.ConstInt(ea.Index)
+		if !ok {
+			continue
+		}
+		for _, r2 := range *ea.Referrers() {
+			if st, ok := r2.(*ssa.Store); ok && st.Addr == ssa.Value(ea) {
+				if _, f, _, ok := core.FieldOf(st.Val); ok {
+					byIdx[idx] = f
+				}
+			}
+		}
+	}
+	var out []string
+	for i := int64(0); i < int64(len(byIdx)); i++ {
+		f, ok := byIdx[i]
+		if !ok {
+			return nil
+		}
+		out = append(out, f)
+	}
+	return out
+}
+
 func layerCall(fn *ssa.Function, layer string) *ssa.Call {
 	for _, call := range core.Calls(fn) {
 		cl, ok := call.(*ssa.Call)
@@ -27,6 +78,11 @@ func layerCall(fn *ssa.Function, layer string) *ssa.Call {
 			if n == "(*sync.Map).Load" {
 				if _, f, _, ok := core.FieldOf(core.Receiver(call)); ok && f == layer+"State" {
 					return cl
+				}
+				for _, f := range layerList(call) {
+					if f == layer+"State" {
+						return cl
+					}
 				}
 			}
 		case "cache":
@@ -85,6 +141,49 @@ func C13(c *Ctx) {
 		for i := 1; i < len(calls); i++ {
 			prev, cur := calls[i-1], calls[i]
 			if prev == nil || cur == nil {
+				continue
+			}
+			// the loop form: one Load consults the fields of a literal list in list order and returns on a hit
+			if ll := layerList(prev); ll != nil {
+				hit := condEdges(home[i-1], func(fc core.Fact, ifi *ssa.If) (bool, int) {
+					if fc.Kind != core.FBool {
+						return false, 0
+					}
+					if ex, ok := fc.Subject.(*ssa.Extract); ok && ex.Tuple == ssa.Value(prev) && ex.Index == 1 {
+						return true, holdsEdge(fc)
+					}
+					return false, 0
+				})
+				var starts []core.Point
+				for b, idxs := range hit {
+					for si := range idxs {
+						if si < len(b.Succs) {
+							starts = append(starts, core.Point{B: b.Succs[si], Idx: 0})
+						}
+					}
+				}
+				fromHit := core.Reach(starts, nil, nil)
+				key := "GetState: " + layers[i] + " lookup behind " + layers[i-1] + " miss"
+				if prev == cur {
+					pi, ci := -1, -1
+					for k, f := range ll {
+						if f == layers[i-1]+"State" {
+							pi = k
+						}
+						if f == layers[i]+"State" {
+							ci = k
+						}
+					}
+					r.Check(len(starts) > 0 && pi >= 0 && pi < ci && !fromHit.Has(prev), "R13.1", key, c.P.Pos(cur.Pos()), "the layers are consulted in the order of the literal list ("+strings.Join(ll, ", ")+") and a hit leaves the loop",
+						"the list the lookup loop ranges over does not put "+layers[i-1]+" before "+layers[i]+", or a hit does not end the loop")
+				} else {
+					var curSite ssa.Instruction = cur
+					if home[i] != home[i-1] && via[i] != nil {
+						curSite = via[i]
+					}
+					r.Check(len(starts) > 0 && !fromHit.Has(curSite) && !core.InLoop(curSite), "R13.1", key, c.P.Pos(cur.Pos()), "a hit in the lookup loop returns; the "+layers[i]+" lookup follows the loop",
+						"the "+layers[i]+" lookup is reachable after a hit in the "+layers[i-1]+" layer (or sits inside the lookup loop)")
+				}
 				continue
 			}
 			// the function in which the ordering is decided, and the instruction standing for `cur` there
@@ -184,7 +283,7 @@ func C13(c *Ctx) {
 					return ok && f == spec.field
 				}
 				// an unexported setter of the account that performs the store (e.g. setBalance)
-				if g := core.StaticCallee(x); g != nil && d == 0 && len(g.Blocks) > 0 && core.PkgOf(g) == ledgerPkg && g != fn {
+				if g := core.StaticCallee(x); g != nil && d <= 1 && len(g.Blocks) > 0 && core.PkgOf(g) == ledgerPkg && g != fn {
 					for _, b := range g.Blocks {
 						for _, y := range b.Instrs {
 							if isStoreD(y, d+1) {
